@@ -87,7 +87,7 @@ class FakeConnection(aioredis.Connection):
         else:
             return response
 
-    async def read_response(self):
+    async def read_response(self, disable_decoding=False):
         if not self._server.connected:
             try:
                 response = self._sock.responses.get_nowait()
@@ -97,6 +97,8 @@ class FakeConnection(aioredis.Connection):
             response = await self._sock.responses.get()
         if isinstance(response, aioredis.ResponseError):
             raise response
+        if disable_decoding:
+            return response
         return self._decode(response)
 
     def repr_pieces(self):
